@@ -170,6 +170,42 @@ pub fn run(tier: Tier, seed: u64) -> i32 {
         let forced = common::prove(&compiled.prover, &prog, &inputs, &tamper, &mut prng, PlonkVersion::V3);
         let forced_v2 = common::prove(&compiled.prover, &prog, &inputs, &tamper, &mut prng, PlonkVersion::V2);
         dusk_plonk::verif::set_force_prove(false);
+        // ---- S3: naive prover as forger: one evaluation solved so that the scalar
+        // part of the verification equation balances (n <= 64) ---------------------
+        let big_s3 = kind == 3 && (ci / 7) % 6 == 0 && total_rows.next_power_of_two() <= 512;
+        if total_rows.next_power_of_two() <= 64 || big_s3 {
+            use crate::refimpl::{kzg as rk, prover as rp, verifier as rv};
+            let vbytes = compiled.verifier.to_bytes();
+            if let (Some(key), Some(srs), Ok(vk)) = (rp::KeyPolys::from_prover_bytes(&compiled.prover.to_bytes()), rk::parse_srs(&pp.to_var_bytes()), rv::parse_verifier(&vbytes)) {
+                let wires = sat::wires_of(&inst);
+                let pi: Vec<BlsScalar> = inst.public_inputs.iter().map(|(_, v)| *v).collect();
+                let bl = rp::Blinders {
+                    wires: core::array::from_fn(|_| [rand_scalar(&mut rng), rand_scalar(&mut rng)]),
+                    perm: [rand_scalar(&mut rng), rand_scalar(&mut rng), rand_scalar(&mut rng)],
+                    quotient: [rand_scalar(&mut rng), rand_scalar(&mut rng), rand_scalar(&mut rng)],
+                };
+                for k in 0..15usize {
+                    if big_s3 && !(7..=10).contains(&k) {
+                        continue;
+                    }
+                    for ver in [Version::V3, Version::V1] {
+                        let Some(built) = rp::prove_full(&key, &srs.powers, &vk, &wires, &pi, &bl, ver, true, Some(k)) else { continue };
+                        if built.solved != Some(true) {
+                            ev.bucket("S3.not-affine-or-unsolvable");
+                            continue;
+                        }
+                        let (acc, _) = judge.triple("S3-solved-evaluation", Some(&compiled.verifier), &vbytes, &built.proof, &pi, ver,
+                            json!({"falsifier": FALSIFIERS[kind], "evaluation": super::c03::PROOF_FIELDS[11 + k], "rows": total_rows, "ci": ci}));
+                        ev.bucket("forged.S3-solved-evaluation");
+                        ev.set_insert("S3_evaluations_solved", super::c03::PROOF_FIELDS[11 + k]);
+                        if acc {
+                            ev.violation(&format!("C02:false-statement-accepted:S3-solved-evaluation:{}:{ver:?}", super::c03::PROOF_FIELDS[11 + k]),
+                                json!({"ops": prog.tags(), "proof": hex::encode(&built.proof), "pi": crate::util::hxs(&pi)}));
+                        }
+                    }
+                }
+            }
+        }
         let strategy = if kind == 6 { "S2-copy-break" } else { "S1-forced" };
         for (ver, fr) in [(Version::V3, forced), (Version::V2, forced_v2)] {
             match fr.result {
@@ -298,8 +334,10 @@ pub fn run(tier: Tier, seed: u64) -> i32 {
     ev.floor("S2 copy-break proofs", ev.bucket_get("forged.S2-copy-break"), tier.pick(15, 150));
     ev.floor("falsifier kinds that reached the verifier", ev.set_len("falsifiers_reaching_verifier") as u64, 7);
     ev.floor("S4 splices", ev.bucket_get("forged.S4-splice"), tier.pick(300, 2000));
+    ev.floor("S3 solved-evaluation forgeries", ev.bucket_get("forged.S3-solved-evaluation"), tier.pick(100, 1000));
+    ev.floor("S3 evaluations that could be solved", ev.set_len("S3_evaluations_solved") as u64, 8);
     ev.floor("S5 degenerate", ev.bucket_get("forged.S5-degenerate"), tier.pick(100, 500));
-    if ev.bucket_get("real.accept") > 0 && ev.violations() == 0 {
+    if ev.bucket_get("real.accept") > 0 && ev.violations() == 0 && ev.known_hits() == 0 {
         ev.inconclusive("a forged proof was accepted but not reported");
     }
     ev.finish()
